@@ -848,6 +848,9 @@ htp_status_t htp_connp_RES_HEADERS(htp_connp_t *connp) {
                 lfcrending = 0;
                 if (connp->out_next_byte == CR) {
                     // hanldes LF-CR sequence as end of line
+#ifdef OISF_LIBHTP_VERIF
+                    htp_verif_trace(1);
+#endif
                     OUT_COPY_BYTE_OR_RETURN(connp);
                     lfcrending = 1;
                 }
